@@ -23,7 +23,8 @@ def classify_common(rec):
         msg = (rec.get("sqlite") or {}).get("exec_err", "")
         if "same number of result columns" in msg and "append" in kinds:
             return "F28-append-prune"
-        if 'near "OFFSET"' in msg and any(s.kind == "take" and s.info.get("rng", (None, 0))[1] is None for s in rec["program"].steps):
+        if "syntax error" in msg and re.search(r"(?<!LIMIT \d)(?<!LIMIT \d\d) OFFSET \d+", sql) and not re.search(r"LIMIT -?\d+ OFFSET", sql[max(0, sql.rfind(" OFFSET") - 12):]) \
+                and any(s.kind == "take" and s.info.get("rng", (None, 0))[1] is None for s in rec["program"].steps):
             return "F27-offset-without-limit" if rec["target"] == "sql.sqlite" else "oracle-generic-offset"
         if "--" in sql and has_neg(rec["prql"]):
             return "F03-double-minus"
